@@ -62,6 +62,40 @@ func receiverWrites(p *Program, ms *mutSummary, fn *ssa.Function, pi int) []ssa.
 				continue
 			}
 			if deepRoots(p, c.Common().Args[qi])[par] {
+				// a bool-returning helper that changes nothing when it returns false
+				// (`if !b.removeElementAt(i) { return false }`): effect only on the true continuation
+				if call, isCall := in.(*ssa.Call); isCall && errorResultIndex(cal.Signature) < 0 && boolAtomic(p, ms, cal) {
+					placed := false
+					var conds []ssa.Value
+					conds = append(conds, call)
+					if call.Referrers() != nil {
+						for _, u := range *call.Referrers() {
+							if no, ok := u.(*ssa.UnOp); ok && no.Op == token.NOT {
+								conds = append(conds, no)
+							}
+						}
+					}
+					for ci, cv := range conds {
+						if cv.Referrers() == nil {
+							continue
+						}
+						for _, u := range *cv.Referrers() {
+							if iff, ok := u.(*ssa.If); ok {
+								cont := iff.Block().Succs[0]
+								if ci > 0 {
+									cont = iff.Block().Succs[1]
+								}
+								if len(cont.Instrs) > 0 {
+									out = append(out, cont.Instrs[0])
+									placed = true
+								}
+							}
+						}
+					}
+					if placed {
+						return
+					}
+				}
 				if call, isCall := in.(*ssa.Call); isCall && atomicCallee[cal] && errorResultIndex(cal.Signature) >= 0 {
 					// effect only on the err == nil continuation
 					ev := errValueOf(call)
@@ -110,6 +144,38 @@ func receiverWrites(p *Program, ms *mutSummary, fn *ssa.Function, pi int) []ssa.
 		}
 	})
 	return out
+}
+
+// boolAtomic: cal returns a single bool and none of its own writes can be followed by `return false`.
+var boolAtomicMemo = map[*ssa.Function]int{}
+
+func boolAtomic(p *Program, ms *mutSummary, cal *ssa.Function) bool {
+	if v, ok := boolAtomicMemo[cal]; ok {
+		return v == 1
+	}
+	boolAtomicMemo[cal] = 0
+	res := cal.Signature.Results()
+	if res.Len() != 1 || len(cal.Params) == 0 {
+		return false
+	}
+	if b, ok := res.At(0).Type().Underlying().(*types.Basic); !ok || b.Kind() != types.Bool {
+		return false
+	}
+	fails := failureReturns(cal)
+	if len(fails) == 0 {
+		return false
+	}
+	for pi := range cal.Params {
+		for _, w := range receiverWrites(p, ms, cal, pi) {
+			for _, ret := range fails {
+				if w.Block() == ret.Block() && instrIndex(w) < instrIndex(ret) || w.Block() != ret.Block() && blockReaches(w.Block(), ret.Block()) {
+					return false
+				}
+			}
+		}
+	}
+	boolAtomicMemo[cal] = 1
+	return true
 }
 
 // structuralFields: the table state the C09 property talks about (structure and content).
@@ -267,15 +333,24 @@ func ruleErrAtomicRemove(r *Run) {
 		if !strings.HasPrefix(fn.Name(), "Remove") {
 			continue
 		}
-		// only those writing Body.Elements
+		// only those writing Body.Elements, themselves or through a private helper
 		writesBody := false
-		allInstrs(fn, func(in ssa.Instruction) {
+		forEachInstr(helperGroup(p, fn), func(in ssa.Instruction) {
 			if st, ok := in.(*ssa.Store); ok {
 				if ch, _ := addrChain(st.Addr); len(ch) > 0 && fieldIs(p, ch[len(ch)-1], pkgDoc, "Body", "Elements") {
 					writesBody = true
 				}
 			}
 		})
+		if !writesBody {
+			for _, sites := range ms.Params(fn) {
+				for _, w := range sites {
+					if fieldIs(p, w.Field, pkgDoc, "Body", "Elements") {
+						writesBody = true
+					}
+				}
+			}
+		}
 		if !writesBody {
 			continue
 		}
@@ -403,6 +478,16 @@ func ruleBodyWrite(r *Run) {
 				ok := strings.Contains(name, ").Remove")
 				if _, allowed := bodyRewriters[name]; allowed {
 					ok = true
+				}
+				// a private helper that only the Remove* functions call
+				if !ok {
+					callers := p.callersIndex()[topLevel(fn)]
+					ok = len(callers) > 0
+					for c := range callers {
+						if !strings.Contains(shortName(topLevel(c)), ").Remove") {
+							ok = false
+						}
+					}
 				}
 				r.Check("body-write", key, st.Pos(), ok, "removal of exactly one element (append(e[:i], e[i+1:]...)) is reserved to the Remove* functions")
 			default:
@@ -545,9 +630,19 @@ func ruleSectPrLast(r *Run) {
 					}
 				}
 			}
+			// the single-pass shape: the element is encoded right away instead of being collected
+			for _, in2 := range b.Instrs {
+				c, ok := in2.(*ssa.Call)
+				if !ok || !strings.Contains(calleeName(c), "encoding/xml.Encoder).Encode") || calleeName(c) == "(*encoding/xml.Encoder).EncodeToken" {
+					continue
+				}
+				if len(c.Call.Args) > 1 && (c.Call.Args[1] == ta.X || derivesFrom(c.Call.Args[1], ta.X)) {
+					appendBlocks[b] = true
+				}
+			}
 		}
 		if len(appendBlocks) == 0 {
-			collectWhy = "no append of the loop element was found"
+			collectWhy = "the loop element is neither collected nor encoded"
 			return
 		}
 		cut := map[*ssa.BasicBlock]bool{}
